@@ -22,6 +22,8 @@ pub struct Run {
     pub mem_reads: Vec<u64>,
     pub steps: u32,
     pub trace: Vec<String>,
+    /// the instruction words that were actually executed (literal data in the code is not among them)
+    pub exec_words: Vec<u32>,
 }
 
 /// x9..x17: caller-saved temporaries that carry no argument (x8 is the indirect-result register,
@@ -154,7 +156,7 @@ pub fn run(entry: u64, mem: &dyn Fn(u64, usize) -> Option<Vec<u8>>, ours: &dyn F
 
 /// As [`run`], additionally stopping as soon as control is transferred to `goal`.
 pub fn run_to(entry: u64, mem: &dyn Fn(u64, usize) -> Option<Vec<u8>>, ours: &dyn Fn(u64) -> bool, max_steps: u32, goal: Option<u64>) -> Run {
-    let mut r = Run { stop: Stop::StepLimit, regs: [None; 32], written: 0, read_initial: 0, sp_written: false, mem_reads: Vec::new(), steps: 0, trace: Vec::new() };
+    let mut r = Run { stop: Stop::StepLimit, regs: [None; 32], written: 0, read_initial: 0, sp_written: false, mem_reads: Vec::new(), steps: 0, trace: Vec::new(), exec_words: Vec::new() };
     let mut pc = entry;
     loop {
         if r.steps > 0 && (!ours(pc) || goal == Some(pc)) {
@@ -177,6 +179,7 @@ pub fn run_to(entry: u64, mem: &dyn Fn(u64, usize) -> Option<Vec<u8>>, ours: &dy
             }
         };
         let ins = decode(w);
+        r.exec_words.push(w);
         r.trace.push(render(w).unwrap_or_else(|| format!(".word {w:#010x}")));
         match ins {
             Ins::Nop | Ins::Barrier | Ins::Hint => pc += 4,
